@@ -78,13 +78,26 @@ pub struct TfsModel {
     /// answers): (id, token) posting entries that the documented contract of
     /// `remove` with non-original text allows to be left behind.
     pub stale: BTreeSet<(u64, String)>,
+    /// Subset of `stale` (classification only): entries left by an EARLIER
+    /// incarnation of the id, i.e. the id was inserted again afterwards with a
+    /// text that does not contain the token.
+    pub stale_old: BTreeSet<(u64, String)>,
+    /// Adjusted reference used behind the recorded finding
+    /// `C11/stale-posting-of-reinserted-id`: a LIVE document additionally
+    /// counts as containing the tokens of its stale entries (exactly the
+    /// recorded effect: the posting entry is still there and the id is indexed
+    /// again). Counters, document lengths and everything about documents that
+    /// are not live are unchanged.
+    pub lenient: bool,
 }
 
 impl TfsModel {
     fn containing(&self, token: &str) -> BTreeSet<u64> {
         self.docs
             .iter()
-            .filter(|(_, (_, toks))| toks.contains_key(token))
+            .filter(|(id, (_, toks))| {
+                toks.contains_key(token) || (self.lenient && self.stale.contains(&(**id, token.to_string())))
+            })
             .map(|(id, _)| *id)
             .collect()
     }
@@ -94,6 +107,7 @@ impl TfsModel {
     fn remove_with(&mut self, id: u64, text_tokens: &BTreeMap<String, usize>) -> bool {
         // entries for the tokens of the supplied text are cleaned in any case
         self.stale.retain(|(i, t)| !(*i == id && text_tokens.contains_key(t)));
+        self.stale_old.retain(|(i, t)| !(*i == id && text_tokens.contains_key(t)));
         match self.docs.remove(&id) {
             Some((_, toks)) => {
                 for t in toks.keys() {
@@ -131,6 +145,9 @@ fn show_model(m: &TfsModel) -> String {
     s.push('}');
     if !m.stale.is_empty() {
         s.push_str(&format!(" stale{:?}", m.stale));
+    }
+    if !m.stale_old.is_empty() {
+        s.push_str(&format!(" earlier-incarnation{:?}", m.stale_old));
     }
     s
 }
@@ -508,6 +525,11 @@ fn check_search(idx: &Idx, m: &TfsModel, words: &[usize], repeat: bool, all_k: b
 }
 
 pub const SIG_HASH_ORDER: &str = "C11/multiword-search-score-depends-on-hash-order";
+/// failure class / signature: a document removed with its CURRENT text is
+/// indexed again after flush + load, through a posting entry that an earlier
+/// incarnation of the same id left behind (remove with non-original text)
+pub const SIG_RESURRECT_KIND: &str = "removed-doc-indexed-again:stale-posting-of-earlier-incarnation";
+pub const SIG_RESURRECT: &str = "C11/removed-doc-resurrected-by-reload-via-stale-posting-of-earlier-incarnation";
 
 /// Fixed scenario outside the 1-3 token universe: six documents (one with five
 /// tokens), one 4-word plain query repeated `repeats` times on ONE index
@@ -592,6 +614,10 @@ impl Sut for Tfs {
                     m.docs.insert(*id, (*t, toks.clone()));
                     // entries for tokens of the new text are refreshed by the insert
                     m.stale.retain(|(i, tok)| !(i == id && toks.contains_key(tok)));
+                    m.stale_old.retain(|(i, tok)| !(i == id && toks.contains_key(tok)));
+                    // what is still stale for this id now belongs to an earlier incarnation
+                    let old: Vec<(u64, String)> = m.stale.iter().filter(|(i, _)| i == id).cloned().collect();
+                    m.stale_old.extend(old);
                     0
                 };
                 let got = idx.insert(*id, TEXTS[*t as usize], now);
@@ -636,6 +662,7 @@ impl Sut for Tfs {
                 }
                 // purge sweeps every posting list
                 m.stale.retain(|(i, _)| !set.contains(i));
+                m.stale_old.retain(|(i, _)| !set.contains(i));
                 let got = idx.purge_ids(&set, now);
                 if got == want {
                     Ok(())
@@ -709,9 +736,34 @@ impl Sut for Tfs {
         // load prunes posting entries of documents that are not indexed
         let docs = &m.docs;
         m.stale.retain(|(id, _)| docs.contains_key(id));
+        m.stale_old.retain(|(id, _)| docs.contains_key(id));
+    }
+
+    fn lenient_for(kind: &str) -> bool {
+        kind.contains("stale-posting-of-reinserted-id")
+    }
+
+    fn set_lenient(m: &mut TfsModel) {
+        m.lenient = true;
     }
 
     fn light_battery(idx: &Idx, _cfg: &TfsCfg, m: &TfsModel, evals: &mut u64) -> Result<(), Fail> {
+        // A document the model does not have (ids 1..=5 are all the ids ever used).
+        // Classification only: when every such id has a posting entry left by an
+        // EARLIER incarnation (removed with non-original text, inserted again,
+        // removed again), the case is one defect irrespective of the history.
+        let surplus: Vec<u64> = (1..=5u64)
+            .filter(|id| !m.docs.contains_key(id) && idx.get_doc_tokens(*id).is_some())
+            .collect();
+        *evals += 5;
+        if !surplus.is_empty() {
+            let earlier = surplus.iter().all(|id| m.stale_old.iter().any(|(i, _)| i == id));
+            let kind = if earlier { SIG_RESURRECT_KIND } else { "doc-not-in-model" };
+            return Err(Fail::new(
+                kind,
+                format!("documents {surplus:?} are indexed (get_doc_tokens) but not in the model {}", show_model(m)),
+            ));
+        }
         // counters
         *evals += 2;
         if idx.len() != m.docs.len() || idx.is_empty() != m.docs.is_empty() {
@@ -831,6 +883,8 @@ impl Sut for Tfs {
             Some("C11/stale-posting-of-reinserted-id".to_string())
         } else if kind.contains("multiword-repeat-hash-order") {
             Some(SIG_HASH_ORDER.to_string())
+        } else if kind.contains(SIG_RESURRECT_KIND) {
+            Some(SIG_RESURRECT.to_string())
         } else {
             None
         }
@@ -882,6 +936,37 @@ pub fn alphabet(ids: u64, texts: &[u8], nonorig: &[u8]) -> Vec<HOp<TfsOp>> {
     a.push(HOp::Do(TfsOp::Purge(vec![])));
     a.push(HOp::Do(TfsOp::Purge(vec![4])));
     a
+}
+
+/// Start states whose ops are executed but not enumerated: three documents
+/// over the whole vocabulary, inserted in an order that spreads the four
+/// terms over >= 2 buckets for every bucket size used (32, 40, 64), so that
+/// `compact_buckets` really re-bins and a removal touches several buckets.
+pub fn preludes() -> Vec<(&'static str, Vec<HOp<TfsOp>>)> {
+    let corpus = vec![
+        HOp::Do(TfsOp::Insert(1, 2)), // beta gamma delta
+        HOp::Do(TfsOp::Insert(3, 5)), // delta alpha
+        HOp::Do(TfsOp::Insert(2, 1)), // alpha beta
+    ];
+    let mut flushed = corpus.clone();
+    flushed.push(HOp::Flush);
+    let mut compacted = corpus.clone();
+    compacted.extend([HOp::Compact, HOp::Flush]);
+    // fragmented by a document that came and went, then compacted and flushed
+    let mut fragmented = vec![HOp::Do(TfsOp::Insert(4, 2)), HOp::Do(TfsOp::Insert(2, 1)), HOp::Flush];
+    fragmented.extend([
+        HOp::Do(TfsOp::RemoveOriginal(4)),
+        HOp::Do(TfsOp::Insert(1, 5)),
+        HOp::Do(TfsOp::Insert(3, 4)),
+        HOp::Compact,
+        HOp::Flush,
+    ]);
+    vec![
+        ("prelude-3docs", corpus),
+        ("prelude-3docs-flushed", flushed),
+        ("prelude-3docs-compacted-flushed", compacted),
+        ("prelude-fragmented-compacted-flushed", fragmented),
+    ]
 }
 
 pub fn legacy_seeds() -> Vec<(&'static str, Vec<HOp<TfsOp>>)> {
